@@ -745,3 +745,145 @@ pub fn verify_program<G: AffineRepr>(
     st.model.phase_switch();
     VerifyOut { res, st, log, probe }
 }
+
+/// What one *session* produced: several statements proved one after the other on ONE transcript,
+/// with ONE generator object per role that is grown step by step between the proofs, every proof
+/// serialised and re-parsed before it is verified, and verified on ONE verifier transcript.
+pub struct SessionOut<G: AffineRepr> {
+    pub prove: Vec<Result<usize, R1CSError>>,
+    pub vss: Vec<Vec<G>>,
+    pub reparse_failed: Vec<bool>,
+    /// verdicts when the verifier follows the prover's order
+    pub in_order: Vec<Result<(), R1CSError>>,
+    /// (position j, verdict) when the verifier, after following the order up to j, is handed
+    /// statement + proof j+1 at position j
+    pub skipped: Option<(usize, Result<(), R1CSError>)>,
+    pub caps_p: Vec<usize>,
+    pub caps_v: Vec<usize>,
+    pub probes_equal: Option<bool>,
+}
+
+fn grow<G: AffineRepr>(bp: &mut BulletproofGens<G>, need: usize, mode: u8) {
+    if bp.gens_capacity >= need {
+        return;
+    }
+    match mode % 3 {
+        0 => bp.increase_capacity(need),
+        1 => {
+            // many small increases (each one resumes the generator chains)
+            let mut c = bp.gens_capacity;
+            while c < need {
+                c = (c + 1 + c / 3).min(need);
+                bp.increase_capacity(c);
+            }
+        }
+        _ => bp.increase_capacity(need + need / 2 + 3),
+    }
+}
+
+/// `need[i]` = padded gate count of program i (from a stand-alone run). `mode` selects how the two
+/// generator objects grow, `parties` their party capacity (party 0's share is what the crate uses).
+pub fn session<G: AffineRepr>(progs: &[Program], need: &[usize], pc: &PedersenGens<G>, seed: u64, mode: u8, parties: usize, skip_at: Option<usize>) -> SessionOut<G> {
+    mon::quiet(|| {
+        let k = progs.len();
+        let mut out = SessionOut { prove: vec![], vss: vec![], reparse_failed: vec![], in_order: vec![], skipped: None, caps_p: vec![], caps_v: vec![], probes_equal: None };
+        let mut ext = ChaChaRng::seed_from_u64(seed);
+        let mut tr = Transcript::new(b"vp-session");
+        let mut bp_p = BulletproofGens::<G>::new((mode as usize) % 2, parties.max(1));
+        let mut blobs: Vec<Option<Vec<u8>>> = vec![];
+        for (i, prog) in progs.iter().enumerate() {
+            for (l, b) in &prog.pre {
+                tr.append_message(ULABELS[*l as usize % ULABELS.len()], b);
+            }
+            grow(&mut bp_p, need[i], mode);
+            out.caps_p.push(bp_p.gens_capacity);
+            let st = Rc::new(RefCell::new(St::<G::ScalarField>::new(&[])));
+            let mut vs: Vec<G> = vec![];
+            let res = {
+                let mut p = Prover::new(pc, &mut tr);
+                let mut commit = |p: &mut Prover<G, &mut Transcript>, s: &mut St<G::ScalarField>, v: &crate::sc::Sc, b: &crate::sc::Sc| {
+                    let vh = s.model.sc(v);
+                    let vb = s.model.sc(b);
+                    s.model.commit(vh, vh, vb);
+                    s.n_commit += 1;
+                    let (pt, var) = p.commit(vh, vb);
+                    vs.push(pt);
+                    var
+                };
+                match drive(&mut p, prog, &st, &mut commit) {
+                    Ok(()) => p.prove_and_return_transcript(&mut ext, &bp_p).map(|(pf, _)| pf),
+                    Err(e) => Err(e),
+                }
+            };
+            out.vss.push(vs);
+            match res {
+                Ok(pf) => {
+                    let b = pf.to_bytes().ok();
+                    out.prove.push(Ok(b.as_ref().map(|x| x.len()).unwrap_or(0)));
+                    blobs.push(b);
+                }
+                Err(e) => {
+                    out.prove.push(Err(e));
+                    blobs.push(None);
+                }
+            }
+        }
+        if blobs.iter().any(|b| b.is_none()) {
+            return out;
+        }
+        let mut pp = [0u8; 32];
+        tr.challenge_bytes(b"vp-probe", &mut pp);
+        // the verifier's generator object grows differently from the prover's
+        let vmode = mode.wrapping_add(1);
+        let verify_at = |tr2: &mut Transcript, bp_v: &mut BulletproofGens<G>, i: usize, out: &mut SessionOut<G>, log_caps: bool| -> Result<(), R1CSError> {
+            let prog = &progs[i];
+            for (l, b) in &prog.pre {
+                tr2.append_message(ULABELS[*l as usize % ULABELS.len()], b);
+            }
+            grow(bp_v, need[i], vmode);
+            if log_caps {
+                out.caps_v.push(bp_v.gens_capacity);
+            }
+            let proof = match R1CSProof::<G>::from_bytes(blobs[i].as_ref().unwrap()) {
+                Ok(p) => p,
+                Err(e) => {
+                    out.reparse_failed.push(true);
+                    return Err(e);
+                }
+            };
+            let (v, _st) = build_verifier::<G>(prog, &out.vss[i], tr2);
+            match v {
+                Ok(v) => v.verify_and_return_transcript(&proof, pc, bp_v).map(|_| ()),
+                Err(e) => Err(e),
+            }
+        };
+        {
+            let mut tr2 = Transcript::new(b"vp-session");
+            let mut bp_v = BulletproofGens::<G>::new((vmode as usize) % 2, parties.max(1) + 1);
+            for i in 0..k {
+                let r = verify_at(&mut tr2, &mut bp_v, i, &mut out, true);
+                out.in_order.push(r);
+            }
+            if out.in_order.iter().all(|r| r.is_ok()) {
+                let mut pv = [0u8; 32];
+                tr2.challenge_bytes(b"vp-probe", &mut pv);
+                out.probes_equal = Some(pv == pp);
+            }
+        }
+        if let Some(j) = skip_at {
+            if j + 1 < k {
+                let mut tr2 = Transcript::new(b"vp-session");
+                let mut bp_v = BulletproofGens::<G>::new(1, parties.max(1));
+                let mut ok = true;
+                for i in 0..j {
+                    ok &= verify_at(&mut tr2, &mut bp_v, i, &mut out, false).is_ok();
+                }
+                if ok {
+                    let r = verify_at(&mut tr2, &mut bp_v, j + 1, &mut out, false);
+                    out.skipped = Some((j, r));
+                }
+            }
+        }
+        out
+    })
+}
